@@ -73,6 +73,9 @@ CHECKS = {
  'C16': dict(level='exploration', ref='3/C16', technique='pinned-thread stress of chibicc-emitted atomic sequences with per-thread result logs and an offline history checker (conservation, exact multiset of results, exactly-once token hand-over, CAS success chain / failure write-back); valgrind helgrind on the same binary as binary-level race detector',
              text='Threads are pinned to distinct CPUs behind a pthread barrier (threads of a fresh process otherwise run serially in this VM) and hammer one shared object per phase: 11 operation families x 6 width/signedness variants x 3 storage classes. Unique results make the histories unambiguous, so the checker decides indivisibility from the logs alone; hand-offs between threads and failed compare-exchanges are counted as evidence of real interleaving (tens of millions per quick run) and a run with too few is inconclusive. Helgrind re-runs a small instance and must report no race on the atomic objects.',
              note='schedules are those the 16 pinned cores produce (no enumeration of interleavings, x86-TSO only); gcc-compiled harness/checker and libpthread trusted; a non-terminating retry loop is reported after one re-run'),
+ 'C12': dict(level='exploration', ref='3/C12', technique='three-stage differential execution monitor: the gcc-built compiler, the compiler it builds and the compiler that one builds are run on the same corpus x option sets through the same cwd and argv[0]; exit status, stdout, stderr and output bytes compared; determinism monitor (ASLR off / padded environment / shifted clock) and valgrind memcheck on stage-2 runs',
+             text='Every stage is hard-linked in turn into one job directory so that cwd and argv[0] (which reach the output through DW_AT_comp_dir and the include path) are identical, and the clock is pinned by a preloaded time(). Corpus: the 9 compiler sources, all bundled tests, generated control-flow / scope / macro / conditional programs from the other properties and invalid mutants whose diagnostics must agree too. Stage-3 objects of the compiler sources must equal stage-2 objects byte for byte.',
+             note='only divergences on the generated corpus are visible; valid-program generators are those of C03/C09/C10, mutants those of C13'),
 }
 REASON_WIP = 'check not built yet in this session (planned, see DESIGN.md section 3); will be claimed once its monitor is silent on the unchanged tree'
 
